@@ -72,8 +72,8 @@ def strategy(tier):
     k = st.integers(0, 999)
     def mk(t):
         w, kk = t
-        for name, upto in (("add", 30), ("remove", 42), ("remove_recent", 46), ("resched", 50), ("remove_any", 55), ("pop", 80), ("peek", 85),
-                           ("contains", 92), ("size", 95), ("empty", 98), ("clear", 100)):
+        for name, upto in (("add", 30), ("remove", 42), ("remove_recent", 46), ("resched", 50), ("remove_any", 55), ("pop", 80), ("peek", 84),
+                           ("str", 86), ("contains", 92), ("size", 95), ("empty", 98), ("clear", 100)):
             if w < upto:
                 break
         return [name, kk] if name in ("add", "remove", "remove_recent", "resched", "remove_any", "contains") else [name]
@@ -271,6 +271,15 @@ def _run_case(case, out):
             if got is not want:
                 out.fail("peek", {"op": opi, "want": srt[0] if srt else None, "got": _idx(events, got)})
             concrete.append(["peek"])
+        elif name == "str":
+            # printing the list and its events (logging) is an observer like the others
+            text = str(el) + repr(el) + "".join(str(events[i]) + repr(events[i]) for i in pending[:3])
+            if not isinstance(text, str):
+                out.fail("str", repr(type(text)))
+            history.append(("str",))
+            concrete.append(["str"])
+            mutating = True            # (not in the model: the drained copy below repeats the printing)
+            out.label("printed")
         elif name == "contains":
             i = op[1] % n
             got = el.contains(events[i])
@@ -337,6 +346,8 @@ def _run_case(case, out):
                         cp.remove(events[h[1]])
                     elif h[0] == "pop":
                         cp.pop_first()
+                    elif h[0] == "str":
+                        str(cp)
                     else:
                         cp.clear()
                 for i in extra:
@@ -389,6 +400,8 @@ def _remove_each_position(out, EventListHeap, events, history, pending, refkey, 
                 cp.remove(events[h[1]])
             elif h[0] == "pop":
                 cp.pop_first()
+            elif h[0] == "str":
+                str(cp)
             else:
                 cp.clear()
         if cp.remove(events[victim]) is not True:
